@@ -94,8 +94,25 @@ def run_check(prop, instances, tier, explanation, bounds, outside, level_assumpt
             _, recs[i] = _work(i)
     else:
         ctx = mp.get_context('fork')
+        # watchdog: if no instance finishes for this long the run is cut (the unfinished instances are reported as not
+        # terminated -> exit 2, nothing claimed) instead of hanging for ever on code that loops
+        stall = float(os.environ.get('VERIF_STALL_S', '900' if tier == 'quick' else '3600'))
         with ctx.Pool(nproc, maxtasksperchild=8) as pool:
-            for i, rec in pool.imap_unordered(_work, range(len(_INST))):
+            it = pool.imap_unordered(_work, range(len(_INST)))
+            while True:
+                try:
+                    i, rec = it.next(timeout=stall)
+                except StopIteration:
+                    break
+                except mp.TimeoutError:
+                    for j in range(len(recs)):
+                        if recs[j] is None:
+                            recs[j] = {'label': _INST[j]['label'], 'paths': 0, 'claims': 0, 'unsat': 0, 'sat': 0, 'unknown': 0, 'distinct': 0,
+                                       'cut_paths': 0, 'solver_s': 0.0, 'forks': 0, 'feas_queries': 0, 'rlimit': 0, 'wall_s': stall,
+                                       'violations': [], 'inconclusive': [], 'best_effort_open': [], 'samples': [], 'functions': [], 'stubs': [],
+                                       'assumptions': [], 'errors': ['no instance finished within %.0f s: instance did not terminate (or is among those still running)' % stall]}
+                    pool.terminate()
+                    break
                 recs[i] = rec
                 if os.environ.get('VERIF_PROGRESS'):
                     print('[done %d/%d] %s %.1fs unsat=%s sat=%s unknown=%s' % (
